@@ -103,6 +103,10 @@ class PDLMatcher:
         if original_op.type_values and len(original_op.type_values) <= index:
             return False
 
+        # The operand must be the result with the requested index
+        if xdsl_operand.index != index:
+            return False
+
         self.matching_context[ssa_val] = xdsl_op.results[index]
 
         return True
